@@ -4,6 +4,7 @@ from fractions import Fraction as Fr
 import common
 
 warnings.simplefilter("ignore")
+sys.set_int_max_str_digits(0)
 if common.REPO not in sys.path:
     sys.path.insert(0, common.REPO)
 with contextlib.redirect_stdout(io.StringIO()):
